@@ -256,7 +256,7 @@ def check(model: Model, run: Run) -> None:
     _r3_selector(model, run, cnt)
 
     # ------------------------------------------------------------------ R4
-    run.rule('C14.R4', 'a selector that matched nothing is not widened: after dispatch() returned the selector-derived peers, the dispatcher may default to all peers only for commands that carried no selector at all', floor=2)
+    run.rule('C14.R4', 'a selector that matched nothing is not widened: after dispatch() returned the selector-derived peers, the dispatcher may default to all peers only for commands that carried no selector at all', floor=1)
     _r4_widening(model, run)
 
     # ------------------------------------------------------------------ R5
